@@ -587,6 +587,12 @@ class LoopMixin:
                 base = vals[0]
                 if not isinstance(base.t, TRef):
                     raise EngineError(f"list mutation on a temporary: {ast.unparse(e)}")
+                keyed = None
+                if vals[1].const is not None and isinstance(vals[1].const.v, str):
+                    keyed = self.reg.funs.get(f"ext:{base.t.cls}.__item_{f.attr}__[{vals[1].const.v}]")
+                if keyed is not None:  # an assumed contract per literal key
+                    out.extend(self.call_contract(keyed, [base, vals[1], vals[2]], {}, s2, e, params=keyed.types.get("__params__")))
+                    continue
                 for s3, m in self.getattr(base, f"__item_{f.attr}__", s2, e):
                     out.extend(self.apply(m, [vals[1], vals[2]], {}, s3, e))
             return out
